@@ -117,7 +117,7 @@ func (c01Suite) Gen(rng *Rng, tier string, w *bufio.Writer, stats *Stats) {
 		qs   []string
 	}{{"suffix", focusedSuffixShapes()}, {"aggregate", focusedAggregateShapes()}, {"agg-traversal", focusedAggTraversalShapes()},
 		{"collect-membership", focusedCollectMembershipShapes()}, {"path-predicate", focusedPathPredicateShapes()}, {"string-literal", focusedStringLiteralShapes()},
-		{"sort-keyword", focusedSortKeywordShapes()}} {
+		{"sort-keyword", focusedSortKeywordShapes()}, {"exact-range", focusedExactRangeShapes()}} {
 		for _, q := range fam.qs {
 			emitFixedSeed("focused:"+fam.name, q)
 			stats.Inc("focused." + fam.name)
